@@ -221,6 +221,31 @@ ALLLEX = sorted(set(LEX.values()) | {"x", "f", "dsp", "0.0", "1.0", "\n", ";", "
 
 
 
+def gen_call_arity_case(rng):
+    """calls whose number of POSITIONAL arguments differs from the number of parameters in every way, with and without defaulted
+    parameters, written as f(a, b), as (a, b) |> f and with a tuple variable; most of these texts have a type error (response to
+    seeded change C04e: a length guard that forgot the defaulted parameters)"""
+    r = rng
+    n = r.range(1, 5)
+    nd = r.range(0, n)                                  # the LAST nd parameters have defaults
+    ps = ["p%d:float" % i + (" = %d.0" % (i + 2) if i >= n - nd else "") for i in range(n)]
+    body = " + ".join("p%d" % i for i in range(n)) if r.chance(3, 4) else "p0"
+    k = r.choice(list(range(0, n + 2)))
+    args = ["%d.0" % (i + 1) for i in range(k)]
+    nm = r.choice(["mix", "f", "\u5408\u6210"])        # an identifier that is not ASCII moves every span
+    form = r.below(4)
+    if form == 0:
+        call = "%s(%s)" % (nm, ", ".join(args))
+    elif form == 1:
+        call = "(%s) |> %s" % (", ".join(args), nm) if k != 1 else "%s |> %s" % (args[0], nm)
+    elif form == 2:
+        call = "%s(t)" % nm
+    else:
+        call = "%s(%s) + %s(%s)" % (nm, ", ".join(args), nm, ", ".join(args[:max(0, k - 1)]))
+    pre = ("  let t = (%s)\n" % ", ".join(args)) if form == 2 and k >= 2 else ("  let t = %s\n" % (args[0] if k == 1 else "0.0") if form == 2 else "")
+    return "fn %s(%s){\n  %s\n}\nfn dsp(){\n%s  %s\n}\n" % (nm, ", ".join(ps), body, pre, call)
+
+
 def gen_type_graph(rng):
     """type alias / type declaration GRAPHS: aliases that refer to each other (chains, cycles, self-cycles, TAILS leading into a
     cycle, names in any alphabetical order), sum types referring to aliases or to themselves with and without `rec`, at top level
@@ -934,6 +959,8 @@ def run(ck):
     rng = ck.rng.fork("type-graphs")
     n_tg = 1500 if tier == "quick" else 15000
     both("type-graphs", [gen_type_graph(rng) for _ in range(n_tg)], sample_every=n_tg)
+    n_ca = 150 if tier == "quick" else 1500
+    both("call-arity", [gen_call_arity_case(rng) for _ in range(n_ca)], sample_every=n_ca)
     ck.coverage["type_graph_texts"] = n_tg
     # ---- repository files, token-level mutations, random Unicode ----
     files = repo_mmm()
